@@ -134,7 +134,9 @@ func genSites(out string) error {
 								}
 								k := pk.Name + "." + sel.Sel.Name
 								switch {
-								case imported["time"] == "time" && (k == "time.Now" || k == "time.After" || k == "time.Since" || k == "time.Sleep"):
+								case imported["time"] == "time" && (k == "time.Now" || k == "time.After" || k == "time.Since" || k == "time.Sleep" ||
+									k == "time.Until" || k == "time.NewTimer" || k == "time.NewTicker" || k == "time.Tick" || k == "time.AfterFunc"),
+									imported["context"] == "context" && (k == "context.WithTimeout" || k == "context.WithDeadline"):
 									ord++
 									sites = append(sites, site{fname, fd.Name.Name, "clock", ord})
 								case strings.HasSuffix(imported[pk.Name], "/rand"):
